@@ -82,10 +82,13 @@ func init() {
 	verifIntrinsics["verifObserveInt"] = verifIntrinsics["verifObserve"]
 	verifIntrinsics["verifLiveGoroutines"] = func(in *Interp, _ *frame, _ []Value) Value {
 		n := 0
+		lifo := in.sched.lifo
+		in.sched.lifo = false // (yielding to oneself under last-in-first-out would never end)
 		for len(in.sched.runq) > 0 { // let runnable goroutines reach a blocking point or exit
 			in.sched.makeRunnable(in.sched.cur)
 			in.sched.block()
 		}
+		in.sched.lifo = lifo
 		for _, g := range in.sched.all[1:] {
 			if !g.done {
 				n++
@@ -132,6 +135,14 @@ func init() {
 		}
 		return nil
 	}
+	// verifSchedChoice(): from here on the run queue is served first-in-first-out or last-in-
+	// first-out, an explored choice (both are schedules the Go runtime may produce). Results that
+	// differ between the two depend on goroutine scheduling.
+	verifIntrinsics["verifSchedChoice"] = func(in *Interp, _ *frame, a []Value) Value {
+		in.sched.lifo = in.ex.Choose(2, "select: run-queue discipline") == 1
+		return nil
+	}
+	verifIntrinsics["verifConfirmingFrozen"] = func(in *Interp, _ *frame, a []Value) Value { return false }
 	verifIntrinsics["verifUnfreeze"] = func(in *Interp, _ *frame, a []Value) Value {
 		in.frozen, in.frozenMap = nil, nil
 		return nil
@@ -335,8 +346,18 @@ func init() {
 		*p = (*p).(int64) + a[1].(int64)
 		return *p
 	}
-	for _, n := range []string{"(*sync.Mutex).Lock", "(*sync.Mutex).Unlock", "(*sync.RWMutex).Lock", "(*sync.RWMutex).Unlock", "(*sync.RWMutex).RLock", "(*sync.RWMutex).RUnlock"} {
-		intrinsics[n] = nop
+	// mutexes: the engine switches goroutines at channel operations only, so a critical section is
+	// never interleaved; the nesting depth is kept to tell synchronised writes from plain ones
+	for _, n := range []string{"(*sync.Mutex).Lock", "(*sync.RWMutex).Lock", "(*sync.RWMutex).RLock"} {
+		intrinsics[n] = func(in *Interp, _ *frame, a []Value) Value { in.lockHeld++; return nil }
+	}
+	for _, n := range []string{"(*sync.Mutex).Unlock", "(*sync.RWMutex).Unlock", "(*sync.RWMutex).RUnlock"} {
+		intrinsics[n] = func(in *Interp, _ *frame, a []Value) Value {
+			if in.lockHeld > 0 {
+				in.lockHeld--
+			}
+			return nil
+		}
 	}
 	// sync.Pool: modelled as a LIFO free list per pool (Get reuses the most recently Put object,
 	// else calls New). Its internal state is synchronised by the runtime, so it is exempt from
@@ -457,6 +478,102 @@ func init() {
 		}
 		return nil
 	}
+	// sync/atomic.Value: the stored interface value lives in a side table per receiver; a Store
+	// into an atomic.Value that lives in frozen memory is state kept across calls and is reported.
+	atomVal := func(in *Interp, p *Value, write bool, what string) *Value {
+		if p == nil {
+			in.rtPanic("invalid memory address or nil pointer dereference")
+		}
+		if in.atomVals == nil {
+			in.atomVals = map[*Value]*Value{}
+		}
+		c := in.atomVals[p]
+		if c == nil {
+			c = new(Value)
+			*c = Iface{}
+			in.atomVals[p] = c
+		}
+		if write && in.frozen != nil {
+			if lbl, ok := in.frozen[p]; ok {
+				in.frozenWrite(what, lbl)
+			}
+		}
+		if in.raceOn {
+			// atomic accesses synchronise: not reported as races
+		}
+		return c
+	}
+	intrinsics["(*sync/atomic.Value).Load"] = func(in *Interp, _ *frame, a []Value) Value {
+		return *atomVal(in, a[0].(*Value), false, "")
+	}
+	intrinsics["(*sync/atomic.Value).Store"] = func(in *Interp, _ *frame, a []Value) Value {
+		if v, ok := a[1].(Iface); ok && v.T == nil {
+			in.rtPanic("sync/atomic: store of nil value into Value")
+		}
+		*atomVal(in, a[0].(*Value), true, "atomic.Value.Store") = a[1]
+		return nil
+	}
+	intrinsics["(*sync/atomic.Value).Swap"] = func(in *Interp, _ *frame, a []Value) Value {
+		c := atomVal(in, a[0].(*Value), true, "atomic.Value.Swap")
+		old := *c
+		*c = a[1]
+		return old
+	}
+	// integer atomics (the engine runs one goroutine at a time, so plain accesses are atomic)
+	for _, ty := range []string{"Int32", "Int64", "Uint32", "Uint64", "Uintptr"} {
+		ty := ty
+		intrinsics["sync/atomic.Load"+ty] = func(in *Interp, _ *frame, a []Value) Value { return *(a[0].(*Value)) }
+		intrinsics["sync/atomic.Store"+ty] = func(in *Interp, _ *frame, a []Value) Value {
+			in.store(a[0].(*Value), a[1])
+			return nil
+		}
+		intrinsics["sync/atomic.Swap"+ty] = func(in *Interp, _ *frame, a []Value) Value {
+			p := a[0].(*Value)
+			old := *p
+			in.store(p, a[1])
+			return old
+		}
+	}
+	for _, ty := range []string{"Int64", "Uint32", "Uint64"} {
+		signed := ty[0] == 'I'
+		w := 64
+		if strings.HasSuffix(ty, "32") {
+			w = 32
+		}
+		intrinsics["sync/atomic.Add"+ty] = func(in *Interp, _ *frame, a []Value) Value {
+			p := a[0].(*Value)
+			var r Value
+			if signed {
+				r = normInt(kInt, w, uint64((*p).(int64)+a[1].(int64)))
+			} else {
+				r = normInt(kUint, w, (*p).(uint64)+a[1].(uint64))
+			}
+			in.store(p, r)
+			return r
+		}
+		intrinsics["sync/atomic.CompareAndSwap"+ty] = func(in *Interp, _ *frame, a []Value) Value {
+			p := a[0].(*Value)
+			if *p == a[1] {
+				in.store(p, a[2])
+				return true
+			}
+			return false
+		}
+	}
+	// sync.WaitGroup: a counter and parked waiters in side tables; Done happens-before the return
+	// of the Wait it releases.
+	intrinsics["(*sync.WaitGroup).Add"] = func(in *Interp, _ *frame, a []Value) Value {
+		in.sched.wgAdd(a[0].(*Value), int(a[1].(int64)))
+		return nil
+	}
+	intrinsics["(*sync.WaitGroup).Done"] = func(in *Interp, _ *frame, a []Value) Value {
+		in.sched.wgAdd(a[0].(*Value), -1)
+		return nil
+	}
+	intrinsics["(*sync.WaitGroup).Wait"] = func(in *Interp, _ *frame, a []Value) Value {
+		in.sched.wgWait(a[0].(*Value))
+		return nil
+	}
 	// sort.Slice / sort.SliceStable (reflect-driven in the library): insertion sort driven by the
 	// real less function; this is exactly what the library does for up to 12 elements, beyond that
 	// the order of elements that compare equal may differ from the library's.
@@ -497,7 +614,9 @@ func init() {
 		_ = st
 		if !in.onceDone[p] {
 			in.onceDone[p] = true
+			in.lockHeld++
 			in.call(fr, a[1], nil)
+			in.lockHeld--
 		}
 		return nil
 	}
